@@ -16,6 +16,9 @@ from typing import Any, Callable, Dict, List, Optional
 VERIF_DIR = os.path.dirname(os.path.dirname(os.path.abspath(__file__)))
 REPO_DIR = os.environ.get("VERIF_REPO", "/repo")
 KNOWN_FILE = os.path.join(VERIF_DIR, "KNOWN_FINDINGS.txt")
+# the sensitivity self-test (tools/mutants.py) points checks at a mutated copy of the repository and
+# redirects their evidence / replay output so that the committed files are not overwritten
+OUT_DIR = os.environ.get("VERIF_OUT", VERIF_DIR)
 NCPU = int(os.environ.get("VERIF_JOBS", "16"))
 
 
@@ -331,8 +334,8 @@ def write_evidence(ctx: RunContext, res: Result, rule: str, level: str, assumpti
         "wall_s": round(wall, 2),
         "violations": n_viol,
     }
-    os.makedirs(os.path.join(VERIF_DIR, "evidence"), exist_ok=True)
-    path = os.path.join(VERIF_DIR, "evidence", f"{ctx.prop}.json")
+    os.makedirs(os.path.join(OUT_DIR, "evidence"), exist_ok=True)
+    path = os.path.join(OUT_DIR, "evidence", f"{ctx.prop}.json")
     tmp = path + ".tmp"
     with open(tmp, "w") as f:
         json.dump(ev, f, indent=1, default=str)
@@ -345,7 +348,7 @@ def write_replay(prop: str, finding: Finding) -> str:
     body = {"property": prop, "key": finding.key, "what": finding.what, "trace": finding.trace}
     blob = json.dumps(body, indent=1, default=str, sort_keys=True)
     sha = hashlib.sha1(blob.encode()).hexdigest()[:10]
-    d = os.path.join(VERIF_DIR, "replays")
+    d = os.path.join(OUT_DIR, "replays")
     os.makedirs(d, exist_ok=True)
     path = os.path.join(d, f"tmp-{prop}-{sha}.json")
     with open(path, "w") as f:
